@@ -5,11 +5,21 @@
   `get_absolute_piece_indexes` / `get_relative_piece_indexes` used by the geometry model are the
   source's expressions.  (`math.floor(a / b)` is translated to exact integer division — trusted
   base of the translator: operands below 2^53, divisor positive.)
+
+  Loop kernels (second half of the file): `get_file_at_position`, `get_files_at_byte_range`,
+  `get_file_position`, `get_files_at_piece_index` and `get_byte_range_of_file` are translated as
+  *whole functions* (kernel kind `loop`: statement by statement, the `for file in
+  self._torrent.files` loop as a structural recursion over the list of sizes with the index of the
+  current file and the integer locals as arguments).  The theorems `C11_kernel_loop_*` say that
+  these generated functions compute, for every list of sizes and every argument, exactly what the
+  hand-written model functions compute — by induction over the list with a loop invariant
+  (generalised over the index, the running position and the files collected so far).
 -/
 import Torf.Generated.Kernels
 import Torf.Model.Geometry
+import Torf.Properties.C11
 namespace Torf.C11
-open Torf Torf.Generated Torf.Geometry
+open Torf Torf.Generated Torf.Geometry Torf.GeomLemmas
 
 theorem C11_kernel_byte_range (a b pos : Int) (s : Nat) :
     Torf.Geometry.rangeHit a b pos s = byteRangeCond a b pos (byteRangeFileLast pos s) := by
@@ -60,5 +70,258 @@ theorem C11_kernel_relative (fileSize L : Nat) (r : Int) :
       relClamp 0 (relMax fileSize L) (if r < 0 then relFromEnd (relMax fileSize L) r else r) := by
   unfold clampRel relClamp relMax relFromEnd floorDiv
   rfl
+
+
+/-! ### Loop kernels: whole functions translated from the source
+
+The proofs do not depend on how the source spells its arithmetic: each `if` of the generated
+function is split, its test is turned into linear arithmetic and compared with the model's test
+by `omega`; the arguments of the recursive call are compared with the model's by `omega` as well
+(the invariants take the model-side position as a separate argument `pos'` with `pos = pos'`). -/
+
+open Torf.Loop
+
+/-- a translated function's outcome in the vocabulary of the geometry model: `ValueError` is the
+    documented error, every other exception class an internal one (injective) -/
+def ofOut {α : Type} : Out α → Res α
+  | .ret v => .ok v
+  | .raised e => if e = "ValueError" then .error .value else .error (.internal e)
+
+/-- the file sizes as the translated functions take them (Python integers) -/
+def ints (sizes : List Nat) : List Int := sizes.map Int.ofNat
+
+/-- indexes relative to the loop start, shifted to indexes in `Torrent.files` -/
+def shift (idx : Nat) (js : List Nat) : List Nat := js.map (· + idx)
+
+/-- the answer of the search loop started at index `idx` -/
+def foundAt (idx : Nat) : Option Nat → Out Nat
+  | some j => .ret (idx + j)
+  | none => .raised "ValueError"
+
+private theorem ofOut_bind {α β : Type} (o : Out α) (k : α → Out β) :
+    ofOut (o.bind k) = (ofOut o) >>= (fun v => ofOut (k v)) := by
+  cases o with
+  | ret v => rfl
+  | raised e =>
+    simp only [Out.bind, ofOut]
+    split <;> rfl
+
+private theorem shift_cons_succ (idx : Nat) (js : List Nat) :
+    shift idx (js.map (· + 1)) = shift (idx + 1) js := by
+  simp only [shift, List.map_map]
+  apply List.map_congr_left
+  intro j _
+  simp only [Function.comp]
+  omega
+
+private theorem shift_hit (idx : Nat) (js : List Nat) :
+    shift idx ([0] ++ js.map (· + 1)) = idx :: shift (idx + 1) js := by
+  rw [← shift_cons_succ]; simp [shift]
+
+private theorem shift_miss (idx : Nat) (js : List Nat) :
+    shift idx ([] ++ js.map (· + 1)) = shift (idx + 1) js := by
+  rw [← shift_cons_succ]; simp
+
+private theorem rangeHit_iff (a b pos : Int) (s : Nat) :
+    rangeHit a b pos s = true ↔
+      ((a ≤ pos ∧ pos ≤ b) ∨ (a ≤ pos + (s : Int) - 1 ∧ pos + (s : Int) - 1 ≤ b)) ∨
+        (a ≥ pos ∧ b ≤ pos + (s : Int) - 1) := by
+  simp only [rangeHit, Bool.or_eq_true, Bool.and_eq_true, decide_eq_true_eq]
+
+private theorem sum_ints (xs : List Nat) : List.sum (ints xs) = ((List.sum xs : Nat) : Int) := by
+  induction xs with
+  | nil => rfl
+  | cons x xs ih =>
+    simp only [ints, List.map_cons, List.sum_cons, Int.ofNat_eq_natCast] at ih ⊢
+    rw [ih]; omega
+
+private theorem sliceTo_ints (xs : List Nat) (k : Int) (j : Nat) (h : k = (j : Int)) :
+    sliceTo (ints xs) k = ints (xs.take j) := by
+  subst h
+  simp [sliceTo, ints, List.map_take]
+
+private theorem bnot_eq_true (b : Bool) : ((!b) = true) ↔ ¬ (b = true) := by cases b <;> simp
+
+/-- a branch of the generated function that the model does not take: its tests, read as linear
+    arithmetic, contradict the model's test -/
+local macro "loop_arith" : tactic =>
+  `(tactic| (try simp only [Bool.or_eq_true, Bool.and_eq_true, bnot_eq_true, decide_eq_true_eq,
+               Bool.true_eq_false, Bool.false_eq_true, not_true_eq_false, not_false_eq_true] at *
+             omega))
+
+/-- loop invariant of `get_file_at_position`: started at file `idx` with running position `pos`,
+    the source's loop answers what the model's loop answers, shifted by `idx` -/
+private theorem fileAtPosition_inv (position : Int) :
+    ∀ (rest : List Nat) (idx : Nat) (pos pos' : Int), pos = pos' →
+      fileAtPositionFn.loop position (ints rest) idx pos = foundAt idx (fileAtPosLoop position rest pos')
+  | [], idx, pos, pos', h => by
+    simp only [ints, List.map_nil, fileAtPositionFn.loop, fileAtPosLoop, foundAt]
+  | s :: rest, idx, pos, pos', h => by
+    subst h
+    simp only [ints, List.map_cons, fileAtPositionFn.loop, fileAtPosLoop, Int.ofNat_eq_natCast]
+    by_cases hm : pos + (s : Int) - 1 ≥ position
+    · rw [if_pos hm]
+      repeat' split
+      all_goals first
+        | loop_arith
+        | simp [foundAt]
+    · rw [if_neg hm]
+      repeat' split
+      all_goals first
+        | loop_arith
+        | (rw [← ints, fileAtPosition_inv position rest _ _ (pos + (s : Int) - 1 + 1) (by omega)]
+           cases fileAtPosLoop position rest (pos + (s : Int) - 1 + 1) <;> simp [foundAt] <;> omega)
+
+/-- `get_file_at_position` as written in the source = the model, for every list of sizes (zero-length
+    entries included) and every position (negative and too large ones included) -/
+theorem C11_kernel_loop_file_at_position (sizes : List Nat) (position : Int) :
+    ofOut (fileAtPositionFn (ints sizes) position) = getFileAtPosition sizes position := by
+  have hmodel : getFileAtPosition sizes position =
+      if position ≥ 0 then ofOut (foundAt 0 (fileAtPosLoop position sizes 0)) else .error .value := by
+    unfold getFileAtPosition
+    cases fileAtPosLoop position sizes 0 <;> simp [ofOut, foundAt]
+  rw [hmodel]
+  unfold fileAtPositionFn
+  by_cases hm : position ≥ 0
+  · rw [if_pos hm]
+    repeat' split
+    all_goals first
+      | loop_arith
+      | rw [fileAtPosition_inv position sizes 0 _ 0 (by omega)]
+  · rw [if_neg hm]
+    repeat' split
+    all_goals first
+      | loop_arith
+      | simp [ofOut]
+
+/-- loop invariant of `get_files_at_byte_range`: started at file `idx` with running position `pos`
+    and the files `acc` collected so far, the source's loop returns `acc` followed by what the
+    model's loop collects, shifted by `idx` -/
+private theorem filesAtByteRange_inv (a b : Int) :
+    ∀ (rest : List Nat) (idx : Nat) (pos pos' : Int) (acc : List Nat), pos = pos' →
+      filesAtByteRangeFn.loop a b (ints rest) idx pos acc =
+        .ret (acc ++ shift idx (byteRangeLoop a b rest pos'))
+  | [], idx, pos, pos', acc, h => by
+    simp [ints, filesAtByteRangeFn.loop, byteRangeLoop, shift]
+  | s :: rest, idx, pos, pos', acc, h => by
+    subst h
+    simp only [ints, List.map_cons, filesAtByteRangeFn.loop, byteRangeLoop, Int.ofNat_eq_natCast]
+    have hm := rangeHit_iff a b pos s
+    by_cases hh : rangeHit a b pos s = true
+    · rw [if_pos hh]
+      have hm' := hm.mp hh
+      clear hm hh
+      repeat' split
+      all_goals first
+        | loop_arith
+        | (rw [← ints, filesAtByteRange_inv a b rest _ _ (pos + (s : Int)) _ (by omega)]
+           rw [shift_hit]; simp)
+    · rw [if_neg hh]
+      have hm' := mt hm.mpr hh
+      clear hm hh
+      repeat' split
+      all_goals first
+        | loop_arith
+        | (rw [← ints, filesAtByteRange_inv a b rest _ _ (pos + (s : Int)) _ (by omega)]
+           rw [shift_miss])
+
+/-- `get_files_at_byte_range` as written in the source = the model, for every list of sizes and
+    every pair of byte indexes (`first > last`: the failed `assert`) -/
+theorem C11_kernel_loop_files_at_byte_range (sizes : List Nat) (a b : Int) :
+    ofOut (filesAtByteRangeFn (ints sizes) a b) = getFilesAtByteRange sizes a b := by
+  unfold filesAtByteRangeFn getFilesAtByteRange
+  by_cases hm : a ≤ b
+  · rw [if_pos hm]
+    repeat' split
+    all_goals first
+      | loop_arith
+      | (rw [filesAtByteRange_inv a b sizes 0 _ 0 _ (by omega)]
+         simp [ofOut, shift])
+  · rw [if_neg hm]
+    repeat' split
+    all_goals first
+      | loop_arith
+      | simp [ofOut]
+
+/-- `get_file_position`: `files.index(file)` (a file is its index; not listed ⇒ ValueError) and
+    the sum over `files[:file_index]` -/
+theorem C11_kernel_loop_file_position (sizes : List Nat) (j : Nat) :
+    ofOut (filePositionFn (ints sizes) j) = (fun (n : Nat) => (n : Int)) <$> getFilePosition sizes j := by
+  unfold filePositionFn getFilePosition lookupFile
+  have hl : (ints sizes).length = sizes.length := by simp [ints]
+  by_cases hj : j < sizes.length
+  · rw [List.getElem?_eq_getElem hj]
+    split
+    · simp only []
+      rw [sliceTo_ints sizes _ j (by omega), sum_ints]
+      rfl
+    · omega
+  · rw [List.getElem?_eq_none (by omega)]
+    split
+    · omega
+    · rfl
+
+/-- `get_files_at_piece_index`: the guard, the byte range of the piece handed to (the translated)
+    `get_files_at_byte_range`, and the empty answer turned into ValueError -/
+theorem C11_kernel_loop_files_at_piece_index (sizes : List Nat) (L : Nat) (i : Int) :
+    ofOut (filesAtPieceIndexFn (ints sizes) i L) = getFilesAtPieceIndex sizes L i := by
+  unfold filesAtPieceIndexFn getFilesAtPieceIndex
+  by_cases hm : i ≥ 0
+  · rw [if_pos hm]
+    split
+    · simp only []
+      rw [ofOut_bind, C11_kernel_loop_files_at_byte_range]
+      have e1 : ∀ x y x' y', x = x' → y = y' →
+          getFilesAtByteRange sizes x y = getFilesAtByteRange sizes x' y' := by
+        intro x y x' y' h1 h2; rw [h1, h2]
+      rw [e1 _ _ (i * (L : Int)) ((i + 1) * (L : Int) - 1) (by first | omega | grind) (by first | omega | grind)]
+      cases getFilesAtByteRange sizes (i * (L : Int)) ((i + 1) * (L : Int) - 1) with
+      | error e => rfl
+      | ok files => cases files <;> simp [ofOut, bind, Except.bind, pure, Except.pure]
+    · rename_i hg; simp only [decide_eq_true_eq] at hg; omega
+  · rw [if_neg hm]
+    split
+    · rename_i hg; simp only [decide_eq_true_eq] at hg; omega
+    · simp [ofOut]
+
+/-- `get_byte_range_of_file` for a file object of size `sz` (a listed file: its size in the list) -/
+theorem C11_kernel_loop_byte_range_of_file (sizes : List Nat) (j : Nat) (sz : Nat)
+    (hsz : ∀ h : j < sizes.length, sizes[j] = sz) :
+    ofOut (byteRangeOfFileFn (ints sizes) j sz) = getByteRangeOfFile sizes j := by
+  unfold byteRangeOfFileFn
+  rw [ofOut_bind, C11_kernel_loop_file_position]
+  unfold getFilePosition getByteRangeOfFile lookupFile
+  by_cases hj : j < sizes.length
+  · rw [List.getElem?_eq_getElem hj, hsz hj]
+    simp only [ofOut]
+    show Except.ok (_, _) = Except.ok (_, _)
+    congr 2
+  · rw [List.getElem?_eq_none (by omega)]
+    rfl
+
+/-! the translated source meets the arithmetic definition (composition with `C11_*_spec`) -/
+
+theorem C11_kernel_loop_file_at_position_meets_spec (sizes : List Nat) (p : Int) :
+    ofOut (fileAtPositionFn (ints sizes) p) = GeomSpec.fileAtPosition sizes p := by
+  rw [C11_kernel_loop_file_at_position, C11_get_file_at_position_spec]
+
+theorem C11_kernel_loop_files_at_byte_range_meets_spec (sizes : List Nat) (a b : Int)
+    (hne : NoEmpty sizes) (hab : a ≤ b) :
+    ofOut (filesAtByteRangeFn (ints sizes) a b) = .ok (GeomSpec.filesAtByteRange sizes a b) := by
+  rw [C11_kernel_loop_files_at_byte_range, C11_get_files_at_byte_range_spec sizes a b hne hab]
+
+theorem C11_kernel_loop_files_at_piece_index_meets_spec (sizes : List Nat) (L : Nat) (i : Int)
+    (hL : 0 < L) (hne : NoEmpty sizes) :
+    ofOut (filesAtPieceIndexFn (ints sizes) i L) = GeomSpec.filesAtPieceIndex sizes L i := by
+  rw [C11_kernel_loop_files_at_piece_index, C11_get_files_at_piece_index_spec sizes L i hL hne]
+
+/-- non-vacuity of the hypotheses above, and the translated functions run: sizes (3, 2, 4) -/
+example : NoEmpty [3, 2, 4] := by intro s hs; simp at hs; omega
+example :
+    fileAtPositionFn [3, 2, 4] 4 = .ret 1 ∧ fileAtPositionFn [3, 2, 4] 9 = .raised "ValueError" ∧
+    filesAtByteRangeFn [3, 2, 4] 2 5 = .ret [0, 1, 2] ∧ filesAtByteRangeFn [3, 2, 4] 5 2 = .raised "AssertionError" ∧
+    filePositionFn [3, 2, 4] 2 = .ret 5 ∧ filePositionFn [3, 2, 4] 3 = .raised "ValueError" ∧
+    filesAtPieceIndexFn [3, 2, 4] 1 4 = .ret [1, 2] ∧ filesAtPieceIndexFn [3, 2, 4] 3 4 = .raised "ValueError" ∧
+    byteRangeOfFileFn [3, 2, 4] 1 2 = .ret (3, 4) := by decide
 
 end Torf.C11
